@@ -74,7 +74,9 @@ func repairCRC(data []byte) {
 }
 
 // readEverything drives every public read entry point; nothing may panic or hang.
-func readEverything(data []byte) {
+func readEverything(data []byte) { readEverythingKey(data, symString(1)) }
+
+func readEverythingKey(data []byte, key string) {
 	repairCRC(data)
 	VerifStepBudget(400000)
 	rd, err := NewReader(&ByteBlockSource{data}, "h")
@@ -95,7 +97,7 @@ func readEverything(data []byte) {
 	if it, err := rd.SeekRef(""); err == nil {
 		scanRefs(it)
 	}
-	if it, err := rd.SeekRef(symString(1)); err == nil {
+	if it, err := rd.SeekRef(key); err == nil {
 		scanRefs(it)
 	}
 	if it, err := rd.SeekLog("", math.MaxUint64); err == nil {
@@ -187,4 +189,59 @@ func Harness_C18_file_bytes() {
 		data[hs+1], data[hs+2], data[hs+3] = VerifU8(), VerifU8(), VerifU8()
 	}
 	readEverything(data)
+}
+
+// Harness_C18_file_index: arbitrary child positions in index blocks of a multi-level index (an entry pointing at its own block, forwards, at a data block of another section, beyond the file).
+// bounds: base table: 40 refs, block size 64, restart interval 2 (two index levels) and its unaligned variant with an object index; one index record of one index block (every index block, first or last record) is redirected to any other block start of the file (its own block, a sibling, a block of another level or section), to the footer or beyond the end, whenever the new position's varint has the same length; then every read entry point with a symbolic 2-byte key
+// covers: opened
+func Harness_C18_file_index() {
+	sh := pickShape(3)
+	if VerifChoose(2) == 1 {
+		sh.cfg.Unaligned = true
+	}
+	refs, _ := buildShape(sh)
+	data, ok := writeTable(sh.cfg, 1, 4, refs, nil)
+	VerifAssert(ok, "writer-accepts")
+	// locate the index blocks with the independent decoder (concrete, cheap)
+	t := specDecodeTable(data)
+	VerifAssert(t.ok, "base-decodes")
+	var idx []int
+	for i := range t.blocks {
+		if t.blocks[i].typ == 'i' {
+			idx = append(idx, i)
+		}
+	}
+	VerifAssert(len(idx) >= 3, "base-has-two-index-levels")
+	blk := t.blocks[idx[VerifChoose(len(idx))]]
+	// walk to the chosen record's position varint
+	p := int(blk.pos) + 4
+	nrec := len(blk.recs)
+	target := 0
+	if VerifChoose(2) == 1 {
+		target = nrec - 1
+	}
+	// the new child position: any block start of the file (including the index
+	// block itself and later blocks), the footer, or just beyond
+	cands := []uint64{uint64(len(data)), uint64(len(data)) - 68}
+	for i := range t.blocks {
+		cands = append(cands, t.blocks[i].pos)
+	}
+	newPos := cands[VerifChoose(len(cands))]
+	var enc [10]byte
+	encLen := specPutVarint(enc[:], newPos)
+	for r := 0; r <= target; r++ {
+		_, n1 := specVarint(data[p:])
+		p += n1
+		sv, n2 := specVarint(data[p:])
+		p += n2 + int(sv>>3)
+		_, n3 := specVarint(data[p:])
+		if r == target {
+			if n3 != encLen {
+				return // would change the record's length: not a same-size edit
+			}
+			copy(data[p:], enc[:encLen])
+		}
+		p += n3
+	}
+	readEverythingKey(data, symString(2))
 }
